@@ -2,6 +2,7 @@ package mon
 
 import (
 	"fmt"
+	"verifharness/gen"
 
 	"verifharness/core"
 )
@@ -85,4 +86,12 @@ func replayIndexed(mk func(ctx *core.Ctx, i int) *Case, check func(c *Case, rep 
 
 func init() {
 	Registry["C02"] = Monitor{Run: RunC02, Replay: replayIndexed(c02Case, checkC02Case)}
+}
+
+func init() {
+	Registry["C04"] = Monitor{Run: RunC04, Replay: func(ctx *core.Ctx, rep *core.Report, w map[string]any) {
+		idx, _ := witnessInt(w, "case")
+		rep.Eval(1)
+		checkC04Case(c04Case(ctx, idx), rep, gen.Rng(ctx.Seed, "c04w", idx), ctx.Pick(5, 9))
+	}}
 }
